@@ -20,7 +20,8 @@ import time
 VERIF = os.path.dirname(os.path.dirname(os.path.abspath(__file__)))
 REPO = os.environ.get("VERIF_REPO", "/repo")
 BUILD = os.environ.get("VERIF_BUILD") or os.path.join(VERIF, "_build")
-COQ = os.path.join(VERIF, "coq")
+COQ = os.environ.get("VERIF_COQ") or os.path.join(VERIF, "coq")   # a scratch copy for runs against a mutated tree (bin/seedtest)
+COQ_LOCK = "coq" if not os.environ.get("VERIF_COQ") else "coq_" + hashlib.sha1(COQ.encode()).hexdigest()[:8]
 THEORIES = os.path.join(COQ, "theories")
 PROPS = os.path.join(THEORIES, "props")
 OCAML = os.path.join(VERIF, "ocaml")
@@ -138,7 +139,7 @@ def prop_targets(pid):
 
 def build_coq(clean=False, targets=None):
     """Full .vo build (never -vos) of every theory, or of `targets` and what they depend on."""
-    with Lock("coq"):
+    with Lock(COQ_LOCK):
         vs, gen = coq_sources()
         lines = ["-Q theories Burrow"]
         if gen:
@@ -174,7 +175,7 @@ def compile_prop(pid):
     """Compile theories/props/<pid>.v on its own, capture Print Assumptions output.
     Returns dict(theorems=[...], axioms=set(...), closed=int, ok=bool, log=str)."""
     src = os.path.join(PROPS, pid + ".v")
-    with Lock("coq", shared=True), Lock("prop_" + pid):
+    with Lock(COQ_LOCK, shared=True), Lock("prop_" + pid):
         p = sh("ulimit -v 16000000; exec timeout 900 coqc %s %s" % (" ".join(coq_flags()), os.path.relpath(src, COQ)),
                cwd=COQ, check=False)
     out = p.stdout or ""
@@ -200,7 +201,7 @@ def compile_prop(pid):
 
 def coqchk(pid, timeout=3000):
     """Re-checks the compiled props/<pid>.vo and everything it depends on with Coq's independent checker (thorough tier)."""
-    with Lock("coq", shared=True), Lock("coqchk"):
+    with Lock(COQ_LOCK, shared=True), Lock("coqchk"):
         p = sh("ulimit -v 24000000; exec timeout %d coqchk -silent -o %s Burrow.props.%s" % (timeout, " ".join(coq_flags()), pid),
                cwd=COQ, check=False)
     return p.returncode == 0, p.stdout or ""
@@ -221,7 +222,7 @@ def coqchk_axioms(txt):
 def build_driver(layer):
     """Extract the layer's model (coq/extract/<layer>.v, ExtrOcamlBasic only) and build its driver binary
     (_build/ocaml/<layer>/driver) from ocaml/vutil.ml + ocaml/drv_<layer>.ml."""
-    with Lock("coq", shared=True), Lock("driver_" + layer):
+    with Lock(COQ_LOCK, shared=True), Lock("driver_" + layer):
         odir = os.path.join(BUILD, "ocaml", layer)
         os.makedirs(odir, exist_ok=True)
         ext = os.path.join(COQ, "extract", layer + ".v")
@@ -443,7 +444,7 @@ def read_corpus(pid, name="cases.txt"):
 def write_gen(name, content):
     """Writes coq/gen/<name>.v (logical path BurrowGen.<name>) if its content changed.  Generated tables are
     regenerated from /repo on every run by the translators; Coq then re-checks the table obligations."""
-    with Lock("coq"):
+    with Lock(COQ_LOCK):
         gdir = os.path.join(COQ, "gen")
         os.makedirs(gdir, exist_ok=True)
         path = os.path.join(gdir, name + ".v")
